@@ -81,14 +81,14 @@ theorem question_unchecked_witness :
     (∃ r, (1, Outcome.wrote r) ∈ s.outs ∧ r.q = some ⟨2, 0, 1, 1⟩) := by
   refine ⟨⟨⟨⟨2, 0, 1, 1⟩, 6⟩, by decide, rfl⟩, ⟨⟨101, some ⟨2, 0, 1, 1⟩, 0, false, 6, .cache⟩, by decide, rfl⟩⟩
 
-/-- **Singleflight: one resolution.** In every reachable state (a) upstream resolutions and flights
-correspond: every `sf.Do` leader starts at most one (none when its own re-check finds the cache
-filled in the meantime), (b) at most one flight runs per cache key — two clients attached
+/-- **Singleflight: one resolution.** In every reachable state (a) every flight has at most one upstream
+resolution (the log of resolutions names each flight at most once; a leader whose own re-check finds the
+cache filled in the meantime starts none), (b) at most one flight runs per cache key — two clients attached
 to running flights for the same key are attached to the same flight, (c) a client attached to a
 flight asks the question the flight resolves. -/
 theorem singleflight_one_resolution (cs : List Client) (as : List Act) :
     let s := run codeCfg (init cs) as
-    (s.calls.length = s.activated ∧ s.activated ≤ s.flights.length) ∧
+    ((s.calls.map (·.1)).Nodup ∧ ∀ f ∈ s.calls.map (·.1), f < s.flights.length) ∧
     (∀ (i j f g : Nat) (fi fj : Flight), (s.pcs[i]? = some (Pc.waiting f) ∨ s.pcs[i]? = some (Pc.leading f)) →
         (s.pcs[j]? = some (Pc.waiting g) ∨ s.pcs[j]? = some (Pc.leading g)) →
         s.flights[f]? = some fi → s.flights[g]? = some fj → fi.result = none → fj.result = none →
@@ -97,12 +97,39 @@ theorem singleflight_one_resolution (cs : List Client) (as : List Act) :
         ∃ (c : Client) (fl : Flight), s.clients[i]? = some c ∧ s.flights[f]? = some fl ∧ fl.key = c.key) := by
   intro s
   have hinv : Inv s := inv_run codeCfg rfl as _ (inv_init cs)
-  refine ⟨hinv.callsLen, ?_, hinv.attached⟩
+  have hcalls := callsInv_run codeCfg as _ (callsInv_init cs)
+  refine ⟨⟨hcalls.nodup, hcalls.bound⟩, ?_, hinv.attached⟩
   intro i j f g fi fj _ _ hf hg hri hrj hk
   have h1 := (hinv.runningActive f fi hf hri).1
   have h2 := (hinv.runningActive g fj hg hrj).1
   rw [hk] at h1
   exact hinv.activeUnique _ _ _ h1 h2
+
+/-- … and a client that enters `sf.Do` while a flight for its key is running starts no resolution: it
+waits on that flight. -/
+theorem join_while_flight_runs_starts_no_resolution (s : St) (i f : Nat) (c : Client)
+    (hc : s.clients[i]? = some c) (hp : s.pcs[i]? = some Pc.missed) (hf : lookup s.active c.key = some f) :
+    (step codeCfg s (Act.join i)).calls = s.calls ∧ (step codeCfg s (Act.join i)).pcs[i]? = some (Pc.waiting f) :=
+  join_running_no_call codeCfg s i f c hc hp hf
+
+/-- **Where answers come from.** Every cached answer, and the answer of every reply that is not built from
+the client's own message, is the answer section of an upstream message that `dialSend` accepted for that
+very key (i.e. after the question check: its question has the key's name, type and class). -/
+theorem answers_come_from_accepted_upstream_messages (cs : List Client) (as : List Act) :
+    let s := run codeCfg (init cs) as
+    (∀ (k : Key) (e : Entry), (k, e) ∈ s.cache → ∃ m : UpMsg, (k, m) ∈ s.accepted ∧ m.ans = e.ans) ∧
+    (∀ (i : Nat) (r : Reply), (i, Outcome.wrote r) ∈ s.outs → r.src = Src.own ∨
+      ∃ (c : Client) (m : UpMsg), s.clients[i]? = some c ∧ (c.key, m) ∈ s.accepted ∧ m.ans = r.ans) ∧
+    (∀ (k : Key) (m : UpMsg), (k, m) ∈ s.accepted →
+      ∃ mq : Question, m.q = some mq ∧ mq.name = k.name ∧ mq.qtype = k.qtype ∧ mq.qclass = k.qclass) := by
+  intro s
+  have hp := prov_run codeCfg rfl as _ (inv_init cs) (prov_init cs)
+  have ha := acc_run codeCfg rfl as _ (by intro k m h; simp [init] at h : AccSound (init cs))
+  refine ⟨hp.cacheProv, hp.outsProv, ?_⟩
+  intro k m hm
+  obtain ⟨mq, hq, hi⟩ := ha k m hm
+  simp only [Question.ident, Key.ident, Prod.mk.injEq] at hi
+  exact ⟨mq, hq, hi.1, hi.2.1, hi.2.2⟩
 
 /-- k concurrent identical questions: one upstream resolution (non-vacuity of the above, with k=3
 clients of which two collide on the ID). -/
